@@ -527,6 +527,13 @@ func (rm *relayManager) handleCreateRelayRequest(v cert.Version, h *HostInfo, f 
 		if !rm.GetAmRelay() {
 			return
 		}
+		// A relay is only ever set up on behalf of the authenticated sender of the request. The relay slot on the target's
+		// tunnel is looked up and stored under relayFrom while the target is told the sender's real address, so a
+		// relayFrom the sender does not own would re-bind another pair's slot to an index negotiated for the sender.
+		if !slices.Contains(h.vpnAddrs, from) {
+			logMsg.Error("Discarding relay request whose relayFrom does not belong to the sender")
+			return
+		}
 		peer := rm.hostmap.QueryVpnAddr(target)
 		if peer == nil {
 			// Try to establish a connection to this host. If we get a future relay request,
